@@ -1,0 +1,72 @@
+//! Observation hooks for out-of-tree runtime verification.
+//!
+//! This module only exists when the crate is built with `--cfg virtio_drivers_verif`. It lets an
+//! external harness get control (a) inside busy-wait loops and (b) around every access to
+//! device-shared virtqueue memory, so that a single-threaded co-simulation can play the device at
+//! those instants. With no hooks installed every call is a no-op.
+
+use core::mem::transmute;
+use core::ptr::null_mut;
+use core::sync::atomic::{AtomicPtr, Ordering};
+
+/// The kind of access to device-shared queue memory which is about to happen (loads) or has just
+/// happened (stores).
+#[derive(Copy, Clone, Debug, Eq, PartialEq)]
+pub enum DmaAccess {
+    /// A descriptor table entry was written.
+    StoreDesc,
+    /// An available ring slot was written.
+    StoreAvailRing,
+    /// The available ring index was written.
+    StoreAvailIdx,
+    /// The available ring flags were written.
+    StoreAvailFlags,
+    /// The `used_event` field of the available ring was written.
+    StoreUsedEvent,
+    /// The used ring index is about to be read.
+    LoadUsedIdx,
+    /// A used ring element (or one field of it) is about to be read.
+    LoadUsedElem,
+    /// The used ring flags are about to be read.
+    LoadUsedFlags,
+    /// The `avail_event` field of the used ring is about to be read.
+    LoadAvailEvent,
+}
+
+static SPIN_HOOK: AtomicPtr<()> = AtomicPtr::new(null_mut());
+static DMA_HOOK: AtomicPtr<()> = AtomicPtr::new(null_mut());
+
+/// Installs the hooks. `spin` is called once per iteration of every busy-wait loop in the crate;
+/// `dma` is called with the access kind and the queue index around every access to device-shared
+/// queue memory.
+pub fn set_hooks(spin: fn(), dma: fn(DmaAccess, u16)) {
+    SPIN_HOOK.store(spin as *mut (), Ordering::SeqCst);
+    DMA_HOOK.store(dma as *mut (), Ordering::SeqCst);
+}
+
+/// Removes the hooks.
+pub fn clear_hooks() {
+    SPIN_HOOK.store(null_mut(), Ordering::SeqCst);
+    DMA_HOOK.store(null_mut(), Ordering::SeqCst);
+}
+
+#[inline]
+pub(crate) fn spin() {
+    let hook = SPIN_HOOK.load(Ordering::SeqCst);
+    if !hook.is_null() {
+        // SAFETY: The only non-null values ever stored are `fn()` pointers from `set_hooks`.
+        let hook: fn() = unsafe { transmute(hook) };
+        hook();
+    }
+}
+
+#[inline]
+pub(crate) fn dma(kind: DmaAccess, queue: u16) {
+    let hook = DMA_HOOK.load(Ordering::SeqCst);
+    if !hook.is_null() {
+        // SAFETY: The only non-null values ever stored are `fn(DmaAccess, u16)` pointers from
+        // `set_hooks`.
+        let hook: fn(DmaAccess, u16) = unsafe { transmute(hook) };
+        hook(kind, queue);
+    }
+}
